@@ -40,7 +40,7 @@ def from_usim_frame(e):
     return last is not None and '/usim/' in last.tb_frame.f_code.co_filename.replace('\\', '/')
 
 
-def kernel_health(ctx, allow_leak=False):
+def kernel_health(ctx, allow_leak=False, ignore=None):
     """C03 monitors: what left run(), what scenario code observed, monitor findings."""
     out = []
     for kind, detail in ctx.findings:
@@ -68,6 +68,8 @@ def kernel_health(ctx, allow_leak=False):
             continue
         x = data
         if id(x) in raised or isinstance(x, GeneratorExit):
+            continue
+        if ignore is not None and ignore(act, pc, x):
             continue
         if isinstance(x, CancelTask):
             task = ctx.tasks.get(act)
